@@ -15,7 +15,7 @@ import shutil
 import sys
 import tempfile
 
-from sim.digest import digest, canon
+from sim.digest import digest, canon, excname
 from sim.simsolver import SimSolver
 from engines import designs, sem
 
@@ -293,7 +293,7 @@ def run_case(case):
         except BaseException as e:  # noqa - whatever glbfloor raises means "did not return"
             if isinstance(e, (KeyboardInterrupt, SystemExit)):
                 raise
-            outcome = "raised " + type(e).__name__
+            outcome = "raised " + excname(e)
             hist.append({"out": outcome, "exc": repr(e)[:120]})
         for f in solver.fired:
             fired[f["kind"]] = fired.get(f["kind"], 0) + 1
@@ -334,7 +334,7 @@ def run_case(case):
                     if isinstance(e, (KeyboardInterrupt, SystemExit)):
                         raise
                     ret2 = None
-                    hist.append({"out": "second call raised " + type(e).__name__})
+                    hist.append({"out": "second call raised " + excname(e)})
                 for f in solver.fired:
                     fired[f["kind"]] = fired.get(f["kind"], 0) + 1
                 if ret2 is not None:
